@@ -144,7 +144,7 @@ def build_cmd(variant, binary):
         td = target_dir("rel")
         return ["cargo", "+nightly", "build", "--release", "--bin", binary, "--target-dir", td], {}, os.path.join(td, "release", binary)
     if variant == "asan":
-        env = {"RUSTFLAGS": "-Zsanitizer=address -Cforce-frame-pointers=yes --cfg vh_sanitizer"}
+        env = {"RUSTFLAGS": "-Zsanitizer=address -Cforce-frame-pointers=yes --cfg vh_sanitizer", "CARGO_PROFILE_RELEASE_DEBUG": "1"}
         return (["cargo", "+nightly", "build", "--release", "--bin", binary, "--target-dir", td, "--target", "x86_64-unknown-linux-gnu"], env,
                 os.path.join(td, "x86_64-unknown-linux-gnu", "release", binary))
     if variant == "tsan":
@@ -323,6 +323,10 @@ def run_check(prop, tier, seed):
     log = open(os.path.join(LOGS, f"{prop}-{tier}.log"), "w")
     plan = PLANS[prop]
     runs = plan[tier if tier in plan else "quick"]
+    only = os.environ.get("VERIF_VARIANTS")
+    if only:
+        # validation runs may restrict the variants (never used by the registered commands)
+        runs = [r for r in runs if r[0] in only.split(",")]
     known = load_known()
     inconclusive = []
     # builds: distinct (variant, binary) — native ones concurrently
